@@ -1,7 +1,7 @@
 (* Props/C01.v -- TextGrid save/open round trip: the text layer.
    Property theorems only; proofs are in IO/CodecProofs.v. *)
 From Coq Require Import String.
-From PraatIO Require Import IO.IoModel IO.CodecProofs IO.ShortFileProofs IO.ShortChunkProofs IO.LongFileProofs IO.LongChunkProofs IO.JsonDict.
+From PraatIO Require Import IO.IoModel IO.CodecProofs IO.ShortFileProofs IO.ShortChunkProofs IO.LongFileProofs IO.LongChunkProofs IO.JsonDict IO.NearInt.
 Open Scope Z_scope.
 
 (* un-doubling the doubled form is the identity, for every label and name *)
@@ -202,3 +202,15 @@ Example C01_example :
   fetch_text_row (quoted [34%N; 97%N; 34%N; 34%N; 10%N; 61%N; 34%N] ++ 10%N :: [49%N; 10%N])
   = Ok ([34%N; 97%N; 34%N; 34%N; 10%N; 61%N; 34%N], [49%N; 10%N]).
 Proof. vm_compute. reflexivity. Qed.
+
+(* REFUTED for times far from 0 (known finding F23): "a value within 1e-14 (relative) of an integer may come back as that
+   integer" is harmless only while no two times of a textgrid share such an integer.  On exact rationals: the two
+   different times 10^13 + 1 + 1/32 and 10^13 + 1 + 2/32 are both written as 10000000000001, so an interval between them is
+   written with equal ends (replayed on the implementation by corpus/C01/F23-*.json: openTextgrid raises) *)
+Theorem C01_near_integer_collapse_refuted :
+  exists d x y, 0 < d /\ x < y /\ written_as_int x d = written_as_int y d /\ written_as_int x d <> None.
+Proof.
+  exists 32, ((10 ^ 13 + 1) * 32 + 1), ((10 ^ 13 + 1) * 32 + 2).
+  destruct near_int_collapse as (H1 & H2 & H3). split; [reflexivity|]. split; [exact H1|]. split; [now rewrite H2, H3|rewrite H2; discriminate].
+Qed.
+Print Assumptions C01_near_integer_collapse_refuted.
